@@ -11,9 +11,9 @@ from harness.common import PathOut, ev
 from harness.cluster import conj, cells, run_oracle
 
 META = {
-    'files': ['enspara/msm/transition_matrices.py'],
+    'files': ['enspara/msm/transition_matrices.py', 'enspara/msm/msm.py'],
     'functions': ['enspara.msm.transition_matrices.trim_disconnected', 'enspara.msm.transition_matrices.TrimMapping '
-                  '(__init__, to_original, to_mapped, __eq__)'],
+                  '(__init__, to_original, to_mapped, __eq__)', 'enspara.msm.msm.MSM.fit (trim=True: same result as trim_disconnected, 4 states)'],
     'bounds': {'quick': 'n<=3 states, symbolic non-negative integer counts, symbolic threshold >= 1, renumber on/off, '
                         'dense ndarray and COO input', 'thorough': 'n<=5'},
     'stubs': ['scipy.sparse.csgraph.connected_components = symbolic Warshall closure honouring connection=/directed=, classes '
@@ -186,4 +186,9 @@ def jobs(tier):
     for dt_, form in (('uint8', 'dense'), ('int16', 'dense'), ('uint8', 'csr')):
         J.append(dict(module='harness.C11', func='trim_job', name='trim[n=3,%s counts,%s]' % (dt_, form),
                       kwargs=dict(n=3, renumber=True, form=form, dtype=dt_), sig_prefix='trim_disconnected', deadline_s=280 if q else 1700))
+    # the estimator's trimming step: MSM.fit(trim=True) keeps exactly what trim_disconnected keeps (four states in two trajectories, so
+    # that the count graph can fall into two back-and-forth pairs)
+    J.append(dict(module='harness.C16', func='fit_job', name='fit[[3, 3],4 states,lag=1,normalize-noeq,trim=True]',
+                  kwargs=dict(lengths=(3, 3), S=4, lag=1, builder='normalize-noeq', trim=True, sliding=True), sig_prefix='trim_disconnected',
+                  deadline_s=280 if q else 1700, timeout_ms=40000 if q else 200000, tol=1e-5))
     return J
